@@ -1,5 +1,5 @@
 (* C20 - Object sources interchangeable: packets depend on the bytes, not on how they are read. *)
-From FluteV Require Import Model.Partition Model.BlockEnc Proofs.BlockEncProofs.
+From FluteV Require Import Model.Partition Model.BlockEnc Model.StreamPos Proofs.BlockEncProofs Proofs.C20Transfers.
 Open Scope N_scope.
 
 (* For every FEC oracle, every configuration with E, B > 0, every content and EVERY read
@@ -41,3 +41,40 @@ Example C20_example_one_byte_reads :
   = blocks_of_buffer (fun _ _ _ _ _ => []) (fun _ _ => None) c content
   /\ length (blocks_of_buffer (fun _ _ _ _ _ => []) (fun _ _ => None) c content) = 3%nat.
 Proof. vm_compute. split; reflexivity. Qed.
+
+(* ---- last clause: every repeated transfer re-reads the source from its start ----
+   Model.StreamPos makes the stream's position explicit: a transfer is BlockEncoder::new's
+   seek to 0 followed by the block reads.  For every number of transfers, WHATEVER position
+   the stream is found at before each of them (left by the previous transfer, by the
+   application, by the length probe) and whatever positive read schedule each transfer sees,
+   every transfer builds exactly the blocks of the buffer source. *)
+Theorem C20_every_transfer_rereads : forall rep raptor_src c bytes (tr : list (N * list N)),
+  0 < c_e c -> 0 < c_b c -> c_tlen c = lenN bytes ->
+  Forall (fun pr => Forall (fun r => 0 < r) (snd pr)) tr ->
+  transfers_blocks rep raptor_src true c bytes tr
+  = repeat (blocks_of_buffer rep raptor_src c bytes) (length tr).
+Proof. exact every_transfer_rereads_proof. Qed.
+Print Assumptions C20_every_transfer_rereads.
+
+Theorem C20_transfers_position_independent : forall rep raptor_src c bytes tr1 tr2,
+  0 < c_e c -> 0 < c_b c -> c_tlen c = lenN bytes ->
+  Forall (fun pr => Forall (fun r => 0 < r) (snd pr)) tr1 ->
+  Forall (fun pr => Forall (fun r => 0 < r) (snd pr)) tr2 ->
+  length tr1 = length tr2 ->
+  transfers_blocks rep raptor_src true c bytes tr1 = transfers_blocks rep raptor_src true c bytes tr2.
+Proof. exact transfers_position_independent. Qed.
+Print Assumptions C20_transfers_position_independent.
+
+(* non-vacuity, and the seek is what the theorem rests on: with the seek three transfers that
+   find the stream at 0, at its end and in its middle give three times the buffer's 3 blocks;
+   WITHOUT it (seek = false) the second builds nothing and the third starts mid-object. *)
+Example C20_example_three_transfers :
+  let c := mk_ecfg NoCode 4 2 0 2 true 20 true in
+  let bytes := [1;2;3;4;5;6;7;8;9;10;11;12;13;14;15;16;17;18;19;20] in
+  let rep := fun _ _ _ _ _ => @nil (list N) in let rs := fun (_ : list N) (_ : N) => @None (list (list N)) in
+  let tr := [(0, repeat 3 40); (20, [7; 1; 100]); (9, [])] in
+  transfers_blocks rep rs true c bytes tr = repeat (blocks_of_buffer rep rs c bytes) 3
+  /\ length (blocks_of_buffer rep rs c bytes) = 3%nat
+  /\ nth 1 (transfers_blocks rep rs false c bytes tr) [] = []
+  /\ nth 2 (transfers_blocks rep rs false c bytes tr) [] <> blocks_of_buffer rep rs c bytes.
+Proof. vm_compute. repeat split; try reflexivity. discriminate. Qed.
